@@ -67,7 +67,7 @@ SYNC_NOTE = ("Trusted: TLC, the project builder / ast-based observer in vf/sync_
              "histories of <= 5 steps, one fault per invocation. Files are named plainly, through a symbolic link or relatively; CLI runs use distinct hash seeds.")
 SYNC_TECH = "TLA+ spec (Sync.tla: Begin/Decide/Tmp/Rename/Open/Write/End/Fault/EditTruth/SwitchTruth; switches Atomic, SkipTruth, BySpelling, Twin, SkipKind) model-checked with TLC for the intended design; real sync histories recorded and validated clause by clause by TLC (SyncTrace.tla)"
 add("C09", "TLC proves Agreement at End for every pre-state combination of Sync.tla (7-10M states; Sync_twin.cfg with a second file of the truth's kind). Real histories: truth kind x kinds given (2 or 3) x "
-    "top-level / method / nested-class target x every target pre-state (missing, empty, definition absent, stale, agreeing canonical / hand-written, no trailing "
+    "top-level / method / nested-class / three-deep class (with a top-level namesake) target x every target pre-state (missing, empty, definition absent, stale, agreeing canonical / hand-written, no trailing "
     "newline, class missing), via ground_truth and via `python -m doctrans sync`; after the run every target is read with ast and must carry the "
     "truth's interface version.", SYNC_NOTE, SYNC_TECH, "DESIGN.md 5.7, 8 C09")
 add("C10", "TLC proves Idempotent (action property), TruthUntouched, ReportTruthful, Untouched on Sync.tla. Real histories of 2-5 steps (sync, sync; "
@@ -79,7 +79,7 @@ add("C11", "TLC proves FrameKept on Sync.tla; real histories over targets surrou
 add("C20", "TLC proves OldOrNew for the write-to-sibling-then-rename design with a Fault action enabled between any two steps (and refutes it for "
     "open-truncate-then-write); faults are injected into real sync runs at every write (before open, after open, mid-write of the 1st/2nd file) and "
     "at the 1st-3rd emitter call; every file must afterwards be byte-identical or completely rewritten and parseable. Cli.tla: every invocation "
-    "shape of the three sub-commands (888) is run as a real subprocess; outcome class, exit status and a byte-level directory snapshot are "
+    "shape of the three sub-commands (892: gen output named plainly or with an unexpanded ~) is run as a real subprocess; outcome class, exit status and a byte-level directory snapshot are "
     "validated by TLC (CliTrace.tla).", SYNC_NOTE + " sync_properties / gen fault points are not injected (single write at the end).",
     SYNC_TECH + "; Cli.tla accept/reject relation + CliTrace.tla", "DESIGN.md 5.7, 5.8, 8 C20")
 
@@ -104,7 +104,7 @@ add("C12", "Process.tla: outputs must be a function of (operation, input) whatev
 add("C13", "Sharing.tla: TLC explores every sequence of emitter / parser calls on one shared object (state space = reachable taint sets) and proves "
     "NonInterference / ObsEquiv when every call works on a copy, and refutes it with a two-call counterexample for in-place write sets. Real "
     "sequences: all sequences with repetition up to length 3 (all of length 4, and of length 5 on two descriptions, in thorough) over 7 emitters on one shared IR x 4 IRs, and all "
-    "sequences up to 4 (6 in thorough) of parse calls on one shared AST (documented, docstring-less, with a classmethod); each call's output is compared with the same call on a fresh deep copy and the shared "
+    "sequences up to 4 (6 in thorough) of parse calls (function, class, argparse function) on one shared AST (documented, docstring-less, with a classmethod); each call's output is compared with the same call on a fresh deep copy and the shared "
     "object's taints are validated by TLC (SharingTrace.tla).",
     "Trusted: TLC, the taint observer (vf/sharing_check.py). Outputs compared as text / canonical IR serialisation.",
     "TLA+ spec (Sharing.tla write-set / read-set model) model-checked with TLC; real call sequences validated by TLC (SharingTrace.tla)",
@@ -125,7 +125,7 @@ add("C16", "Body.tla: TLC enumerates every body up to 4 (thorough: 5) statements
     "design, and refutes them for the transcribed positional special cases (leading string expression, argument_parser assignment, trailing return). "
     "Every body (all up to length 2, a sample / all of length 3-4) is rendered to real statements, pushed through parse + emit to the same kind and "
     "name, through emit.class_(emit_call=True), and again after a class / argparse function was made from the same description (HeldIntact); TLC validates the observed token sequence and the set of rewritten name labels (BodyTrace.tla).",
-    "Trusted: TLC, the statement templates and the classifier (vf/body_check.py). Bounds: bodies <= 4 (thorough 5) statements over 10 templates, 2 parameters.",
+    "Trusted: TLC, the statement templates and the classifier (vf/body_check.py). Bounds: bodies <= 4 (thorough 5) statements over 12 templates (annotated assignments included), 2 parameters.",
     "TLA+ spec (Body.tla token-sequence model) model-checked with TLC; real parse+emit runs validated by TLC (BodyTrace.tla)", "DESIGN.md 5.4, 8 C16")
 
 
